@@ -81,9 +81,10 @@ def handleLog (op : String) (bits x base : Nat) (impl : String) : String × Stri
         | "clog2" => resOpt (checkedLog2 bits x e) tag
         | _ => resOpt (checkedLog10 bits x e) tag
       (m, spec)
-    | _ => ("skip", if spec = "any" then "any"
-                    else if spec.startsWith "pred:false" then spec
-                    else "pred:false no-estimate (the model reaches the float estimate, the implementation did not report one)")
+    | _ =>
+      -- the model reaches the float estimate but the implementation reported none: if it panicked / timed
+      -- out the spec column already says so; a correct value without an estimate is a broken correspondence
+      (if spec.startsWith "pred:false" then "skip" else "needs-estimate", spec)
   else
     let m := match op with
       | "log" => resNat (Log.log bits x base 0) "e-"
@@ -112,7 +113,9 @@ def handleRoot (bits x k : Nat) (impl : String) : String × String :=
         else if guessOk bits x k g s then "pred:true"
         else "pred:false hyp guess=" ++ toHex g ++ " floor_root=" ++ toHex s
       (m, spec)
-    | _ => ("skip", "pred:false no-guess " ++ impl ++ " want " ++ toHex s)
+    | _ =>
+      -- the model reaches the Newton loop but the implementation reported no first guess
+      if valOk then ("needs-guess", "pred:true") else ("skip", "pred:false want " ++ toHex s)
 
 /-- signed decimal -/
 def parseInt (s : String) : Int :=
@@ -174,6 +177,26 @@ def handle (args : List String) (impl : String) : String × String :=
     | "log2" | "clog2" => handleLog op bits x 2 impl
     | "log10" | "clog10" => handleLog op bits x 10 impl
     | "alog2" => ("skip", judgeAlog2 x impl)
+    | "apow2" =>
+      -- `impl` = `<result> <class>`; the class (float pre-processing) is an input of the integer model
+      let toks := impl.splitOn " "
+      let res := if toks.head? = some "some" then " ".intercalate (toks.take 2) else (toks.head?.getD "")
+      let cls := if toks.head? = some "some" then toks.drop 2 else toks.drop 1
+      match cls with
+      | ["neg"] => ("some 0 neg", if res = "some 0" then "pred:true" else "pred:false want some 0")
+      | ["one"] =>
+        let w := if bits = 0 then "none" else "some 1"
+        (w ++ " one", if res = w then "pred:true" else "pred:false want " ++ w)
+      | ["big"] => ("none big", if res = "none" then "pred:true" else "pred:false want none")
+      | [mt, st] =>
+        let mant := parseHex (mt.drop 1).toString
+        let shift := parseHex (st.drop 1).toString
+        -- independent formula: exact product, or round-half-up quotient
+        let v := if shift ≥ 63 then mant * 2 ^ (shift - 63) else (2 * mant + 2 ^ (63 - shift)) / 2 ^ (64 - shift)
+        let w := if v < 2 ^ bits then "some " ++ toHex v else "none"
+        (optStr (approxPow2Post bits mant shift) ++ " " ++ mt ++ " " ++ st,
+         if res = w then "pred:true" else "pred:false want " ++ w)
+      | _ => ("skip", "any")
     | "apow2i" =>
       let n := parseInt as
       let spec : Option Nat :=
